@@ -84,7 +84,7 @@ func vTarget(label string, allowUnmapped bool) string {
 // symbolic only when symNs is set (verifC02_Namespace), otherwise a fixed mix.
 func vFlow(label string, n int, base int) []FlowNode { return vFlowNs(label, n, base, false) }
 
-var vFixedNs = []string{"", "A", "", "B", "A"}
+var vFixedNs = []string{"", "A", "default", "B", "A"} // "default" (lower case) is a namespace of its own, not the built-in DEFAULT
 
 func vFlowNs(label string, n int, base int, symNs bool) []FlowNode {
 	flow := make([]FlowNode, n)
